@@ -115,9 +115,22 @@ def find(tree: ast.AST, qual: str) -> ast.AST:
     return cur
 
 
+def _cut_translated(file: str, qual: str, node: ast.AST) -> ast.AST:
+    """statements of an anchored function that a translator turns into Lean functions are not part of the anchor
+    (they are tied by the translation itself): the post-processing segment of `solve_scipy` (py2lean_post.py)"""
+    if (file, qual) == ("solvers/scipy_solver.py", "solve_scipy"):
+        import py2lean_post
+        try:
+            a, b = py2lean_post.post_segment(node)
+        except py2lean_post.TranslateError:
+            return node
+        node.body = node.body[:a] + node.body[b:]
+    return node
+
+
 def fingerprint(repo: str, file: str, qual: str) -> str:
     tree = ast.parse(open(os.path.join(repo, "src/optyx", file)).read())
-    node = _strip(find(tree, qual))
+    node = _strip(_cut_translated(file, qual, find(tree, qual)))
     return hashlib.sha256(ast.unparse(node).encode()).hexdigest()[:16]
 
 
